@@ -209,9 +209,50 @@ def sweep(tier, seed):
                     probs.append(f'{label}: a {sym} {kind}: the operand was modified')
                 if probs:
                     fails.append({'input': {'datasets': label, 'op': f'dataset {sym} {kind}'}, 'observed': probs[:3], 'expected': 'C08 oracle'})
+    # mixed number types and array classes on the two sides (float / integer / float32 errors, masked and plain arrays), in both orders: same numbers whatever the order
+    def mixes():
+        f64 = Dataset(np.array([1.0, -2.0, 3.0]), np.array([0.5, 1.5, 2.5]), name='f64')
+        yield 'float errors, integer errors', f64, Dataset(np.array([3.0, 5.0, -7.0]), np.array([1, 2, 1]), name='int-errors')
+        yield 'float64 errors (1e20), float32 errors', Dataset(np.array([1.0, 2.0, 3.0]), np.array([1e20, 1.0, 2.0]), name='big'), \
+            Dataset(np.array([1.0, 2.0, 3.0], dtype=np.float32), np.array([1.0, 2.0, 3.0], dtype=np.float32), name='f32')
+        m = f64.mask(np.array([False, True, False]))
+        yield 'masked, plain', m, Dataset(np.array([3.0, 5.0, -7.0]), np.array([1.0, 2.0, 1.0]), name='plain')
+    for label, a, b in mixes():
+        for sym in '+-':
+            for x, y, order in ((a, b, 'left o right'), (b, a, 'right o left')):
+                n += 1
+                try:
+                    r = ops[sym](x, y)
+                except Exception as e:      # noqa
+                    fails.append({'input': {'datasets': label, 'op': f'dataset {sym} dataset', 'order': order}, 'observed': f'raised {e!r}', 'expected': 'a dataset'})
+                    continue
+                xe, ye = np.ma.getdata(x.error).astype(float), np.ma.getdata(y.error).astype(float)
+                want_e = np.sqrt(xe ** 2 + ye ** 2)
+                keep = ~(np.ma.getmaskarray(x.value) | np.ma.getmaskarray(y.value))
+                probs = []
+                if not _close(np.ma.getdata(r.error).astype(float)[keep], want_e[keep]):
+                    probs.append(f'{label} ({order}): error {np.ma.getdata(r.error).tolist()} != {want_e.tolist()}')
+                if np.ma.getmaskarray(r.value).tolist() != np.ma.getmaskarray(r.error).tolist():
+                    probs.append(f'{label} ({order}): value masked at {np.ma.getmaskarray(r.value).tolist()}, error masked at {np.ma.getmaskarray(r.error).tolist()}')
+                if probs:
+                    fails.append({'input': {'datasets': label, 'op': f'dataset {sym} dataset', 'order': order}, 'observed': probs[:3], 'expected': 'C08 oracle, whatever the order of the operands'})
+    # an array operand with MORE dimensions / cells than the dataset: an error, or a well-formed dataset -- never a value that no longer matches its errors and bins
+    for dshape, ashape in (((5,), (2, 5)), ((5,), (1, 5)), ((2, 5), (3, 2, 5)), ((1, 1), (2, 5)), ((), (3,))):
+        for sym in '+-*/':
+            n += 1
+            size = int(np.prod(dshape)) if dshape else 1
+            ds = Dataset(np.arange(1.0, size + 1).reshape(dshape) if dshape else np.float64(2.0), (np.full(dshape, 0.5) if dshape else np.float64(0.5)), name='d')
+            arr = np.arange(1.0, int(np.prod(ashape)) + 1).reshape(ashape)
+            try:
+                r = ops[sym](ds, arr)
+            except Exception:      # noqa
+                continue
+            if np.shape(r.value) != np.shape(r.error):
+                fails.append({'input': {'dataset_shape': list(dshape), 'array_shape': list(ashape), 'op': f'dataset {sym} array'},
+                              'observed': f'value of shape {np.shape(r.value)} with an error of shape {np.shape(r.error)}', 'expected': 'an error, or a well-formed dataset'})
     return {'name': 'dataset-arithmetic-native', 'evaluations': n, 'distinct': n, 'failures': fails[:10], 'exhaustive': False,
             'bound': f'shapes {shapes}, bins as edges and centres, finite values of either sign; dataset o dataset, dataset o number in {consts}, dataset o array (float and unsigned integer) for + - * /; '
-                     'copy independence (writes into the copy incl. its bins), squeeze, one chain; exact operands (all errors zero) on either side x right operand with / without bins; a mask of a mask; 0-d datasets and integer-valued datasets with datasets and numbers; relative tolerance 1e-12 on the error formulas',
+                     'copy independence (writes into the copy incl. its bins), squeeze, one chain; exact operands (all errors zero) on either side x right operand with / without bins; a mask of a mask; 0-d datasets and integer-valued datasets with datasets and numbers; float / integer / float32 errors and masked / plain arrays in both orders; arrays that broadcast beyond the shape of the dataset; relative tolerance 1e-12 on the error formulas',
             'samples': [{'shape': [2, 2], 'edges': True, 'op': 'dataset * -1'}]}
 
 
